@@ -247,6 +247,7 @@ def factor_nodes(tens, dim, datas, members):
 
 HEADER = r"""
 From Coq Require Import ZArith List Bool QArith Qabs.
+From QV Require Import C14.GaugeModel.
 From QV Require Import C14.Model.
 Import ListNotations.
 Close Scope Q_scope.
@@ -1188,10 +1189,17 @@ def case_gauge(ctx, seed, coq_out=None):
             msgs = {(ix, i): np.asarray(bp.messages[ix, tid[i]]) for ix, i in cut}
             # the documented conditioning of the inserted spectrum; well conditioned <=> the inverse factors are
             # numerically meaningful on the patch itself (rank-deficient messages: only the whole network is compared)
-            spec = {key: sqrt_spectrum(m, smudge, power) for key, m in msgs.items()}
-            wellc = all(sp.min() > 1e-5 * sp.max() for sp in spec.values())
-            spec_t = {key: sqrt_spectrum(m, 1e-12, 1.0) for key, m in msgs.items()}
-            wellc_t = all(sp.min() > 1e-5 * sp.max() for sp in spec_t.values())
+            # (judged on the un-powered spectrum: an eigenvalue that is pure rounding noise must not pass after a power < 1)
+            def conditioned(sm, pw):
+                for m in msgs.values():
+                    sp = sqrt_spectrum(m, sm, 1.0)
+                    r = sp.min() / sp.max()
+                    if not (r > 1e-4 and r**pw > 1e-5):
+                        return False
+                return True
+
+            wellc = conditioned(smudge, power)
+            wellc_t = conditioned(1e-12, 1.0)
             ctx.bump("gauge_well_conditioned" if wellc else "gauge_rank_deficient_message")
 
             # (1) forward factors
@@ -1347,6 +1355,53 @@ def case_gauge(ctx, seed, coq_out=None):
         import traceback
 
         ctx.violation("d2bp:gauge:raised", f"raised {type(e).__name__}: {str(e)[:160]}", {**desc, "tb": traceback.format_exc()[-600:]})
+
+
+def frac_vec(v):
+    """real float vector -> (exact integers, common denominator)"""
+    fr = [Fraction(float(x)) for x in np.asarray(v, dtype=float).reshape(-1)]
+    den = 1
+    for f in fr:
+        den = den * f.denominator // math.gcd(den, f.denominator)
+    return [int(f * den) for f in fr], den
+
+
+def corr_gauge(ctx):
+    """D2BP.gauge_insert factor rule vs coq/C14/GaugeModel.v.  The stage runs the gauge oracle (case_gauge: tests) on
+    its cases and, for up to three boundary bonds of each, hands the eigen-decomposition (W, s) of the message
+    (numpy.linalg.eigh, the call gauge_insert itself makes) and the factors the implementation returned to Coq:
+        raw factor     == msqrt (smudged / powered s) W     = s_i * conj(W[j][i])
+        inverse factor == minv  (smudged / powered s) W     = W[i][j] / s_j       (cross-multiplied by s_j)
+    entrywise at 1e-9 of the Frobenius norm, in exact integer arithmetic (one float rounding per entry separates the
+    implementation from the exact model value, so the comparison cannot be an equality)."""
+    cases, info = [], {}
+    N = ctx.n(60, 900)
+    cid = 0
+    for it in range(N):
+        seed = ctx.seed * 7919 + 130000 + it
+        out = []
+        case_gauge(ctx, seed, coq_out=out)
+        exprs = []
+        for tr in out:
+            n = len(tr["s"])
+            W, dw = gint_mat(tr["W"])
+            sv, ds = frac_vec(tr["s"])
+            sm = Fraction(float(tr["smudge"]))
+            graw, dg = gint_mat(tr["raw"])
+            args = f"{natlit(n)} {gmat_lit(W)} {zlit(dw)} {zlist(sv)} {zlit(ds)} {zlit(sm.numerator)} {zlit(sm.denominator)} " \
+                   f"{natlit(tr['power'])}"
+            exprs.append(f"raw_matches {args} {gmat_lit(graw)} {zlit(dg)}")
+            if tr["inv"] is not None and np.all(np.isfinite(tr["inv"])):
+                ginv, dh = gint_mat(tr["inv"])
+                exprs.append(f"inv_matches {args} {gmat_lit(ginv)} {zlit(dh)}")
+                ctx.bump("corr_gauge_inverse_factors")
+            ctx.bump("corr_gauge_raw_factors")
+        if not exprs:
+            continue
+        cid += 1
+        info[cid] = {"stream": "corr_gauge", "case_seed": seed, "bonds": [tr["ind"] for tr in out]}
+        cases.append((cid, " && ".join(f"({e})" for e in exprs)))
+    return cases, info
 
 
 def corpus_stream(ctx):
@@ -1515,7 +1570,7 @@ def correspondence(ctx):
     import time
 
     streams = []
-    for name, fn in (("d1bp", corr_d1bp), ("hd1bp", corr_hd1bp), ("combine", corr_combine)):
+    for name, fn in (("d1bp", corr_d1bp), ("hd1bp", corr_hd1bp), ("combine", corr_combine), ("gauge", corr_gauge)):
         t0 = time.time()
         cases, info = fn(ctx)
         ctx.extra.setdefault("stage_wall_s", {})["impl_side_" + name] = round(time.time() - t0, 1)
@@ -1554,6 +1609,10 @@ def correspondence(ctx):
 def search_after_mismatch(ctx, failed_descs):
     """a correspondence case failed: run the direct oracle on those seeds (and neighbours) to get a concrete input"""
     for d in failed_descs[:6]:
+        if d.get("stream") == "corr_gauge":
+            for k in range(24):
+                case_gauge(ctx, int(d["case_seed"]) * 31 + k)
+            continue
         flav = "d1bp" if d.get("stream") == "corr_d1bp" else "hd1bp"
         for k in range(12):
             case_messages(ctx, flav, int(d["case_seed"]) * 31 + k)
@@ -1583,7 +1642,7 @@ def run(ctx):
         "asymptotic convergence under damping is tested, not proved",
     ]
     ctx.check_props(["Base/Sums.vo", "C14/Model.vo", "C14/Combine.vo", "C14/Contract.vo", "C14/Sched.vo", "C14/Tree.vo",
-                     "C14/Final.vo", "C14/Props.v"])
+                     "C14/Final.vo", "C14/GaugeModel.vo", "C14/Gauge.vo", "C14/Props.v"])
     import time
 
     def timed(fn, *a):
@@ -1615,5 +1674,7 @@ def replay(ctx, path):
         case_2norm(ctx, r["flavour"], int(r["case_seed"]))
     elif st == "oracle_messages":
         case_messages(ctx, r["flavour"], int(r["case_seed"]))
+    elif st == "oracle_gauge":
+        case_gauge(ctx, int(r["case_seed"]))
     else:
         run(ctx)
